@@ -77,7 +77,9 @@ def gen_world(rng, i, tier):
         # an absolute file of any name: with a suffix, without any dot in the whole path (/etc/shells, /etc/fstab),
         # a dot only in a directory name, a leading or a trailing dot
         w["single_path"] = rng.pick(["$ROOT/some/dir/%s.conf" % base, "$ROOT/some/dir/%s.conf" % base, "$ROOT/some/dir/shells", "$ROOT/etc/fstab",
-                                     "$ROOT/some.d/dir/shells", "$ROOT/some/dir/.hidden", "$ROOT/some/dir/name."])
+                                     "$ROOT/some.d/dir/shells", "$ROOT/some/dir/.hidden", "$ROOT/some/dir/name.",
+                                     # a path of several hundred bytes made of short components (far below PATH_MAX)
+                                     "$ROOT/" + "/".join(["deep-directory-%02d-%s" % (k, "x" * 20) for k in range(rng.pick([7, 12]))]) + "/%s.conf" % base])
         nodes.append({"p": w["single_path"], "t": "f", "entries": contents(rng, fid, shape, dl[2], ml)})
     else:
         w["single"] = False
